@@ -215,9 +215,9 @@ func (info *ifaceInfo) implIndex(T types.Type) int {
 
 // cellComp returns the heap component holding values of type T behind *T.
 func (S *Sorts) cellComp(T types.Type) *Component {
-	if a, ok := T.Underlying().(*types.Array); ok {
-		// pointer-to-array: the ref is an array id in Arr_E
-		return S.arrComp(a.Elem())
+	if _, ok := T.Underlying().(*types.Array); ok {
+		// pointer-to-array: the ref is an array id in the array's class
+		return S.arrComp(T)
 	}
 	name := "Cell_" + mangle(types.TypeString(T, func(p *types.Package) string { return shortPkg(p.Path()) }))
 	if c, ok := S.comps[name]; ok {
@@ -230,9 +230,21 @@ func (S *Sorts) cellComp(T types.Type) *Component {
 	return c
 }
 
-// arrComp returns the heap component holding backing arrays with element type E.
-func (S *Sorts) arrComp(E types.Type) *Component {
-	name := "Arr_" + mangle(types.TypeString(E, func(p *types.Package) string { return shortPkg(p.Path()) }))
+// arrComp returns the heap component holding the backing arrays of slices of
+// type T (a slice or array type). Components are per class of slice types
+// (classes.go), not per element type.
+func (S *Sorts) arrComp(T types.Type) *Component {
+	var E types.Type
+	switch u := T.Underlying().(type) {
+	case *types.Slice:
+		E = u.Elem()
+	case *types.Array:
+		E = u.Elem()
+	default:
+		panic(unsupported{"arrComp of non-slice " + T.String()})
+	}
+	class := S.P.sliceClass(T)
+	name := "Arr_" + mangle(class)
 	if c, ok := S.comps[name]; ok {
 		return c
 	}
